@@ -616,6 +616,6 @@ func main() {
 
 	suts := []*sut{build(false), build(true)}
 	rts := routes()
-	runSingle(r, suts, rts, r.N(40000, 1500000))
-	runChain(r, suts, rts, r.N(40000, 1500000))
+	runSingle(r, suts, rts, r.N(40000, 2500000))
+	runChain(r, suts, rts, r.N(40000, 2500000))
 }
